@@ -32,11 +32,11 @@ PAIRS = [(f, m) for f in ("png", "npy", "fits") for m in tilegen.FMT_MODES[f]]
 def cases(tier, seed):
     R = random.Random("c15/%d" % seed)
     out = []
-    nb = 5 if tier == "quick" else 60
+    nb = 5 if tier == "quick" else 250
     for m in MODES:
         for i in range(nb):
             out.append(dict(t="buf", mode=m, n=60 if tier == "quick" else 150, seed=R.randrange(1 << 30)))
-    for i in range(40 if tier == "quick" else 600):
+    for i in range(40 if tier == "quick" else 3000):
         fmt, mode = PAIRS[i % len(PAIRS)]
         out.append(dict(t="hist", fmt=fmt, mode=mode, steps=R.choice([4, 8, 12]), seed=R.randrange(1 << 30)))
     out.append(dict(t="workload", seed=R.randrange(1 << 30)))
